@@ -146,6 +146,7 @@ type fakeController struct {
 	cancelled bool
 	started   bool
 	mu        gosync.Mutex
+	kill      chan struct{}
 }
 
 func (f *fakeController) Watch(src source.TypedSource[reconcile.Request]) error {
@@ -156,10 +157,15 @@ func (f *fakeController) Start(ctx context.Context) error {
 	f.mu.Lock()
 	f.started = true
 	f.mu.Unlock()
-	<-ctx.Done()
-	f.mu.Lock()
-	f.cancelled = true
-	f.mu.Unlock()
+	select {
+	case <-ctx.Done():
+		f.mu.Lock()
+		f.cancelled = true
+		f.mu.Unlock()
+	case <-f.kill:
+		// The harness ends the execution (after judging it): a controller
+		// that was never cancelled must not keep the bubble alive.
+	}
 	return nil
 }
 
@@ -251,6 +257,17 @@ func newWorld(xrRefs []string) *world {
 	return w
 }
 
+// killControllers releases controller goroutines that were never cancelled.
+func (w *world) killControllers() {
+	for _, fc := range w.ctrls {
+		select {
+		case <-fc.kill:
+		default:
+			close(fc.kill)
+		}
+	}
+}
+
 // deleteCRD delivers a CRD delete event to the handler the engine registered
 // with GarbageCollectCustomResourceInformers.
 func (w *world) deleteCRD(kind string) {
@@ -274,7 +291,7 @@ func (w *world) deleteCRD(kind string) {
 }
 
 func (w *world) newController(name string, _ manager.Manager, _ kcontroller.Options) (kcontroller.Controller, error) {
-	fc := &fakeController{name: name}
+	fc := &fakeController{name: name, kill: make(chan struct{})}
 	w.ctrls = append(w.ctrls, fc)
 	return fc, nil
 }
@@ -326,6 +343,10 @@ func (w *world) exec(o op) string {
 		return strings.Join(names, ",")
 	case "GC":
 		return errStr(w.gcs[o.ctrl].GarbageCollectWatchesNow(ctx))
+	case "RawRemoveInformer":
+		// Directly on the tracking cache (not what the engine does itself,
+		// but part of the cache's contract: it must stay consistent).
+		return errStr(w.infs.RemoveInformer(ctx, obj(o.kinds[0])))
 	case "RemoveInformer":
 		// The production path: the CRD that defines the kind is deleted and
 		// the engine's CRD informer handler removes the kind's informer.
@@ -440,6 +461,8 @@ func specStep(used map[string]bool) func(state string, o sched.Op) []sched.Alt {
 				}
 			}
 			return one("ok", st.String())
+		case "RawRemoveInformer":
+			return one("ok", state)
 		case "RemoveInformer":
 			// The watches of the kind die with its informer; the engine
 			// forgets them (they are started again by the next request).
@@ -493,6 +516,7 @@ var alphabet = []op{
 	{"Start", "c1", nil}, {"Stop", "c1", nil}, {"IsRunning", "c1", nil},
 	sw("c1", "k1"), sw("c1", "k1", "k2"), stw("c1", "k1"), stw("c1", "k1", "k2"),
 	{"GetWatches", "c1", nil}, {"GC", "c1", nil}, {"RemoveInformer", "", []string{"k1"}},
+	{"RawRemoveInformer", "", []string{"k1"}},
 }
 
 func opArgs(o op) string { return o.ctrl + "|" + strings.Join(o.kinds, ",") }
@@ -530,6 +554,7 @@ func body(r *explore.Run, rep *report.R, sc scenario) {
 			_ = w.eng.Stop(context.Background(), c)
 		}
 		w.gcCancel()
+		w.killControllers()
 	}()
 	for i, ops := range sc.threads {
 		ops := ops
@@ -553,6 +578,23 @@ func body(r *explore.Run, rep *report.R, sc scenario) {
 		record("obs", op{"IsRunning", c, nil}, func() string { return w.exec(op{"IsRunning", c, nil}) })
 		record("obs", op{"GetWatches", c, nil}, func() string { return w.exec(op{"GetWatches", c, nil}) })
 	}
+	// The tracking cache and the cache it wraps agree on which informers
+	// exist.
+	active := map[schema.GroupVersionKind]bool{}
+	for _, g := range w.infs.ActiveInformers() {
+		active[g] = true
+	}
+	w.cache.mu.Lock()
+	for n, g := range kinds {
+		_, has := w.cache.infs[g]
+		// (An informer that failed to start stays marked active by design:
+		// judged only in executions without injected informer errors.)
+		if has != active[g] && w.cache.failed == 0 {
+			w.cache.mu.Unlock()
+			r.Failf("cache/tracking-inconsistent", "kind %s: tracked as active=%v but the wrapped cache has an informer=%v", n, active[g], has)
+		}
+	}
+	w.cache.mu.Unlock()
 	var hs []string
 	for _, h := range w.hist {
 		hs = append(hs, fmt.Sprintf("%s:%s(%s)=%s@%d-%d", h.Thread, h.Name, h.Args, h.Result, h.Call, h.Return))
@@ -666,7 +708,7 @@ func collectorBody(r *explore.Run, rep *report.R) {
 		}
 	}
 	w := newWorld(refs)
-	defer func() { _ = w.eng.Stop(context.Background(), "c1"); w.gcCancel() }()
+	defer func() { _ = w.eng.Stop(context.Background(), "c1"); w.gcCancel(); w.killControllers() }()
 	w.exec(op{"Start", "c1", nil})
 	if len(running) > 0 {
 		w.exec(sw("c1", running...))
